@@ -254,10 +254,21 @@ func scenC09(r *Run) {
 		var cases []pcase
 		for i := 0; i < n; i++ {
 			ph := fmt.Sprintf("h%d.example", 1+t.Draw(3))
-			k := t.Draw(6)
+			k := t.Draw(7)
 			var c pcase
 			extra := Doc{}
 			switch k {
+			case 6:
+				c.kind = "author-same-hostname-other-port"
+				// a different port is a different service: its users are not this host's users
+				f.host(ph).Ports = map[string]bool{"443": true, "8443": true}
+				n := f.next()
+				aid := fmt.Sprintf("https://%s:8443/a/u%d", ph, n)
+				_, ad := f.actorDoc(ph, n, nil)
+				ad["id"] = aid
+				f.Serve(fmt.Sprintf("https://%s/a/u%d", ph, n), ad)
+				extra["attributedTo"] = aid
+				c.wantErr = true
 			case 0:
 				c.kind = "same-host-author"
 				extra["attributedTo"] = f.simpleActor(ph)
